@@ -97,6 +97,11 @@ func init() {
 			buy("B buy 10 TOKC via 3 hops", B, ids(0, PoolTokA, PoolTokB, PoolTokC), e18(10), huge, 0),
 			buy("B buy 100 BIP with TOKA gas TOKA", B, ids(PoolTokA, 0), e18(100), huge, PoolTokA),
 			buy("B buy more TOKC than pool holds", B, ids(PoolTokB, PoolTokC), e18(40000), huge, 0),
+			buy("B buy exactly pool1 reserve + order 1 volume of TOKA", B, ids(0, PoolTokA), e18(101000), huge, 0),
+			buy("B buy exactly pool1 reserve + order 1 volume - 1 pip", B, ids(0, PoolTokA), new(big.Int).Sub(e18(101000), big.NewInt(1)), huge, 0),
+			buy("B buy exactly pool1 reserve of TOKA", B, ids(0, PoolTokA), e18(100000), huge, 0),
+			buy("B buy exactly pool1 BIP reserve + order 2 escrow", B, ids(PoolTokA, 0), e18(101000), huge, 0),
+			sell("B sell 10^9 BIP->TOKA (drain attempt)", B, ids(0, PoolTokA), e18(900000), zero, 0),
 			sellAll("B sell all TOKC->TOKB", B, ids(PoolTokC, PoolTokB), zero, 0),
 			sellAll("B sell all TOKA->BIP (gas = TOKA implied)", B, ids(PoolTokA, 0), zero, 0),
 			sellAll("B sell all TOKC->TOKB->TOKA->BIP", B, ids(PoolTokC, PoolTokB, PoolTokA, 0), zero, 0),
